@@ -97,6 +97,21 @@ def run(ctx: Ctx, env):
                         applied.append((label + "()", q2))
                 except AnalysisError:
                     raise
+        # a translated operand stays wrapped: reading `.value` off the translation of an argument takes a bound Value apart, and what
+        # is done with the bare Python value afterwards (a str handed to a Django Func is a column reference) is no longer a parameter
+        for label, p in paths:
+            if p.outcome != "return" or "/" not in label:  # function handlers (label `<handler>/<n args>`): their operands are values, not paths
+                continue
+            r0 = repr(p.value)
+            if "attr(visit(" in r0 and ",'value')" in r0:
+                import re as _re
+                m0 = _re.search(r"attr\(visit\([^()]*(?:\([^()]*\))?[^()]*\),'value'\)", r0)
+                if m0:
+                    ho = ".".join(p.entry.get("handler", "?").rsplit(".", 2)[-2:])
+                    ctx.fail("R1.translated-operand-stays-wrapped", f"{ho}|value",
+                             f"[{vs}] {label}: uses `{m0.group(0)[:80]}` - the Python value inside an already translated operand - to build the result "
+                             f"`{T.show(T.norm(p.value), 120)}`: the literal is no longer passed as the bound Value it was translated to",
+                             p.entry.get("where", ""), "title eq tolower('content')")
         for label, p in paths + applied:
             if p.outcome != "return":
                 continue
